@@ -31,10 +31,9 @@ CLAIMS = {'C07': {'technique': 'structural sequencing/dominance obligations on t
                  'minimal big-endian width; unbounded proof that unpack_columns is total and returns exactly what the documented packed-key format decodes to '
                  '(zero-extended integers/lengths) and that pack_columns emits exactly that format for up to 255 columns. A machine-checked lemma composes the '
                  'two contracts: decoding the encoding of any column list (<= 255 columns) gives back exactly that list. Round trip of the hand-written '
-                 'codecs: the real writers of Changeset, SyncNeedV1, SqliteValue and of the newtypes under them emit exactly the documented token layout and '
-                 'the real readers, handed that layout followed by anything, return the value and leave the rest (lists of any length); the SyncStateV1 '
-                 'writer emits its layout (maps in iteration order, every count the size of the collection that follows). Derived (speedy-derive) codecs, '
-                 'the SyncStateV1 reader, frame-size limits and peak RSS are not decided.',
+                 'codecs: the real writers of Changeset, SyncNeedV1, SyncStateV1, SqliteValue and of the newtypes under them emit exactly the documented token '
+                 'layout and the real readers, handed that layout followed by anything, return the value and leave the rest (lists and maps of any size; '
+                 'maps are written in iteration order and compared as maps). Derived (speedy-derive) codecs, frame-size limits and peak RSS are not decided.',
          'note': 'Assumed: speedy Reader and primitive/derived Readable impls are total and consume their minimum size; generic reader/error types replaced by '
                  'concrete stand-ins; `bytes` crate as compiled by Kani; one token per primitive value stands for speedy\'s own integer / slice / str / '
                  'Option / Vec / HashMap codecs being mutually inverse and self-delimiting; HashMap iteration order is a function of the map object.'},
